@@ -1,6 +1,6 @@
 (* Top level: model = spec for vis, weights, flags; phantom dumps; other flag bits. *)
 From Coq Require Import ZArith List Bool Lia ZifyBool.
-From KV Require Import Base.Sx Model.Prune Model.LostMap Proofs.PruneP Proofs.LostMapP Proofs.LostMapNdP.
+From KV Require Import Gen.Generated Base.Sx Model.Prune Model.LostMap Proofs.PruneP Proofs.LostMapP Proofs.LostMapNdP.
 Import ListNotations.
 Open Scope Z_scope.
 
@@ -303,3 +303,12 @@ Proof.
   cbn [align_one chunk_id combine map fst snd hd]. rewrite !CS.
   unfold n_dumps. cbn [hd]. apply orb_true_iff. right. lia.
 Qed.
+
+(* ---------- tie of the hand-written model to the constructs translated from the current source ---------- *)
+(* loop conditions of _prune_chunks; fill of a missing flags chunk; fill of _default_zero; mask ORed by _apply_data_lost *)
+Lemma generated_agree :
+  (forall c start, gen_prune_front_drop c start = (c <=? start)) /\
+  (forall c shape stop, gen_prune_back_drop c shape stop = (c <=? shape - stop)) /\
+  gen_flags_missing_fill = DATA_LOST /\ gen_default_fill = 0 /\ gen_lost_or_mask = DATA_LOST /\
+  gen_intersect_old_is_flags = true.
+Proof. repeat split; reflexivity. Qed.
